@@ -47,7 +47,7 @@ type RS struct {
 }
 
 // NumHidden is the number of hidden perturbations per module (0 = none).
-var NumHidden = []int{6, 2, 4, 4, 3, 4}
+var NumHidden = []int{16, 2, 4, 4, 3, 4}
 
 // ID encodes the rule's content class (module, resource, variant) and its table index. Rule
 // managers reuse the controller (and the rule object) of an earlier load for a rule that is
@@ -131,6 +131,38 @@ func BuildFlow(r RS) *flow.Rule {
 			// a throttling rule (the queueing time, perturbed by Tw, matters only for this behaviour); threshold 0
 			// blocks under throttling as it does under reject
 			x.ControlBehavior = flow.Throttling
+		case 6, 7, 8, 9, 10:
+			// memory-adaptive rules that differ from each other in exactly one field (never block: thresholds of
+			// 4e8 and more; only for the non-blocking variant, a memory-adaptive rule cannot have threshold 0)
+			if r.Var == 0 {
+				x.TokenCalculateStrategy = flow.MemoryAdaptive
+				x.LowMemUsageThreshold, x.HighMemUsageThreshold, x.MemLowWaterMarkBytes, x.MemHighWaterMarkBytes = 1000000000, 500000000, 4096, 8192
+				switch r.Hid {
+				case 7:
+					x.MemHighWaterMarkBytes = 16384
+				case 8:
+					x.MemLowWaterMarkBytes = 2048
+				case 9:
+					x.LowMemUsageThreshold = 2000000000
+				case 10:
+					x.HighMemUsageThreshold = 400000000
+				}
+			}
+		case 11, 12, 13:
+			// warm-up rules that differ in exactly one field (threshold 0 blocks under warm-up too)
+			x.TokenCalculateStrategy, x.WarmUpPeriodSec, x.WarmUpColdFactor = flow.WarmUp, 5, 3
+			if r.Hid == 12 {
+				x.WarmUpPeriodSec = 7
+			}
+			if r.Hid == 13 {
+				x.WarmUpColdFactor = 5
+			}
+		case 14, 15:
+			// rules on an associated resource nobody enters (count 0: threshold 0 still blocks, 1e9 never does)
+			x.RelationStrategy, x.RefResource = flow.AssociatedResource, "ref-a"
+			if r.Hid == 15 {
+				x.RefResource = "ref-b"
+			}
 		}
 	}
 	return x
